@@ -608,3 +608,32 @@ def rule_word_boundary(ctx, rep: Report, rid="G9"):
                 f"{node.src[0]}:{node.src[1]}")
     if n < 15:
         raise AnalysisError(f"{rep.prop}/{rid}: only {n} word-like terminals found (15+ expected)")
+
+
+def rule_recursive_alternative_last(ctx, rep: Report, rid="Z5"):
+    """Under a *bounded* packrat cache (enablePackrat() keeps 128 entries, first-in first-out) the cost argument of
+    Z1-Z4 needs one more premise: in a longest-match alternation (`^`) pyparsing first tries every alternative and
+    then parses the winner again, and the second parse of a self-recursive winner is cheap only while the entries of
+    its trial are still cached.  With the recursive alternative tried *last* nothing runs between its trial and its
+    re-parse; with another alternative tried after it, that trial's entries (proportional to the length of a
+    qualified name) push the nested entries out and every nesting level is parsed twice - cost doubles per level."""
+    g = ctx.grammar
+    root, _ = parse_root(ctx)
+    n = 0
+    for o in sorted(g.reachable(root), key=lambda x: (x.src, x.uid)):
+        if o.kind != "Or" or len(o.children) < 2:
+            continue
+        rec = [i for i, a in enumerate(o.children) if any(x.uid == o.uid for x in g.reachable(a))]
+        if not rec:
+            continue
+        n += 1
+        nonrec = [i for i in range(len(o.children)) if i not in rec]
+        ok = not nonrec or min(rec) > max(nonrec)
+        rep.add(rid, f"alternation:{ctx_label(g, o)}:self-recursive alternative(s) tried after all others", ok,
+                f"alternatives {[o.children[i].describe() for i in range(len(o.children))]}: recursive at position(s) {rec}, "
+                f"non-recursive at {nonrec}: a non-recursive alternative is tried between the trial and the re-parse of the "
+                f"recursive one, so with names of five or more `::` components the bounded memo table has lost the nested "
+                f"entries and each nesting level is parsed twice (exponential in the nesting depth)", f"{o.src[0]}:{o.src[1]}")
+    if n < 2:
+        raise AnalysisError(f"{rep.prop}/{rid}: only {n} alternation(s) with a self-recursive alternative found (2 expected: "
+                            f"template arguments, namespace content)")
